@@ -213,6 +213,13 @@ def gen_variants(src: str, qualname: str, kinds=('break', 'twin')) -> List[Tuple
                     m.ops = [MIRROR[type(m.ops[0])]()]
                 variant(i, e, 'twin', 'a %s b mirrored' % type(n.ops[0]).__name__)
 
+                # `a >= b` and `not (a < b)` differ when an operand is a NaN (H3/H5: that difference is a defect
+                # class of its own), so this rewriting is a twin only where an operand is an integer by construction
+                def _intish(x):
+                    return (isinstance(x, ast.Call) and isinstance(x.func, ast.Name) and x.func.id == 'len') or \
+                           (isinstance(x, ast.BinOp) and isinstance(x.op, (ast.Mod, ast.FloorDiv)))
+                nan_free = _intish(n.left) or _intish(n.comparators[0])
+
                 def e2(m, P, F):
                     par = P.get(m)
                     neg = ast.UnaryOp(op=ast.Not(), operand=ast.Compare(left=m.left, ops=[NEGATED[type(m.ops[0])]()],
@@ -225,7 +232,8 @@ def gen_variants(src: str, qualname: str, kinds=('break', 'twin')) -> List[Tuple
                             val[val.index(m)] = neg
                             return
                     return False
-                variant(i, e2, 'twin', 'a %s b as not (a %s b)' % (type(n.ops[0]).__name__, NEGATED[type(n.ops[0])].__name__))
+                if nan_free:
+                    variant(i, e2, 'twin', 'a %s b as not (a %s b)' % (type(n.ops[0]).__name__, NEGATED[type(n.ops[0])].__name__))
             if isinstance(n, ast.BinOp) and isinstance(n.op, (ast.Add, ast.Mult)) and not noise:
                 strish = lambda x: isinstance(x, (ast.JoinedStr, ast.List, ast.Tuple)) or (isinstance(x, ast.Constant) and isinstance(x.value, str))
                 if not strish(n.left) and not strish(n.right) and not (isinstance(n.left, ast.BinOp) and isinstance(n.left.op, ast.Mod)):
